@@ -9,6 +9,7 @@ HEADLINE = ["c07_promises", "c07_promises_nonempty_window", "c07_promises_with_o
 def plan(tier, seed, scale):
     return {"n_cases": sizes(tier, scale, 2400, 60000), "variants": 4,
             "profiles": ["chain", "events", "core", "events_flat", "big", "deep"],
+            "remote_cases": int((32 if tier == "quick" else 1600) * scale),
             "timeout_s": 600 if tier == "quick" else 7200}
 
 
